@@ -486,9 +486,11 @@ class Parser:
         value = self._current_literal()
         if value is None:
             inner_macro = self._context.get_macro(str(self._current_token))
-            if inner_macro is None:
+            if inner_macro.undefined:
                 return self.token_error('Macro needs constant, got "{}"')
             value = inner_macro.value
+        if not self._context.get_macro(name).undefined:
+            return self.trigger_error('Already defined: "{}"'.format(name))
         self._context.add_global(name, SymbolType.MACRO, value)
         self._add_instruction(OpCode.CONSTANT, name, value)
         return self.next_token()
